@@ -8,8 +8,8 @@ from vf import gen, probes
 PID = "C07"
 ANCHORS = ["pyoma2.functions.fdd:EFDD_mpe", "pyoma2.functions.fdd:SDOF_bellandMS", "pyoma2.functions.fdd:FDD_mpe", "pyoma2.algorithms.fdd:EFDD.mpe"]
 REQUIRED_MONITORS = ["truth@EFDD_mpe(EFDD)", "truth@EFDD_mpe(FSDD)", "scale-invariance(EFDD)", "scale-invariance(FSDD)", "truth@EFDD.mpe(class)", "truth@FSDD.mpe(class)"]
-ALL_STATES = [f"nxseg={n}" for n in (1024, 2048, 4096, 8192)] + ["xi<3%", "xi>4%", "fn<0.08fs", "fn>0.2fs", "bandwidth<6 lines"]
-REQUIRED_STATES = ["nxseg=1024", "nxseg=2048", "nxseg=4096", "xi<3%", "xi>4%"]
+ALL_STATES = [f"nxseg={n}" for n in (1024, 2048, 4096, 8192)] + ["xi<3%", "xi>4%", "fn<0.08fs", "fn>0.2fs", "bandwidth<6 lines", "same array object analysed twice with different content"]
+REQUIRED_STATES = ["nxseg=1024", "nxseg=2048", "nxseg=4096", "xi<3%", "xi>4%", "same array object analysed twice with different content"]
 RULE = ("exactly the quantifier's class: analytic SDOF spectral density |H(f)|^2 phi phi^T + 1e-9 full-rank floor on the grid k fs/nxseg, fn in "
         "[0.04,0.25] fs, xi in [2,5] %, half-power bandwidth >= 4 lines, >= 30 periods in the half record, 2..6 channels, real shapes, "
         "DF2 in [4,10] bandwidths, default sppk/npmax/MAClim; oracle = the statement's numbers (MAC >= 0.999, 2.5 % frequency, 15 % damping) "
@@ -19,8 +19,9 @@ ASSUMPTIONS = ["multi-mode spectra and correlogram spectra are outside the prope
 
 
 def cases(tier, seed):
-    n1, n2 = (150, 24) if tier == "quick" else (1500, 200)
-    return [{"cls": "function", "k": k} for k in range(n1)] + [{"cls": "classes", "k": k} for k in range(n2)]
+    n1, n2, n3 = (140, 24, 12) if tier == "quick" else (1500, 200, 120)
+    return ([{"cls": "function", "k": k} for k in range(n1)] + [{"cls": "classes", "k": k} for k in range(n2)]
+            + [{"cls": "reused_buffer", "k": k} for k in range(n3)])
 
 
 def draw(rng, nxs=(1024, 2048, 4096, 8192)):
@@ -99,6 +100,30 @@ def run_function(ctx, rng):
     ctx.sample({"entry": "fdd.EFDD_mpe (EFDD and FSDD)", "nxseg": nxseg, "fs": fs, "fn": fn, "xi": xi, "channels": nch, "bandwidth_lines": bw / df, "DF2": DF2, "scale c": c})
 
 
+def run_reused_buffer(ctx, rng):
+    """two different spectra of one shape analysed one after the other in the SAME array object (a sweep refilling a work array)."""
+    from pyoma2.functions import fdd
+
+    first = draw(rng, nxs=(1024, 2048))
+    nxseg, fs, nch = first[0], first[1], first[2]
+    buf = np.empty_like(first[9])
+    for rep in range(2):
+        while True:
+            cur = draw(rng, nxs=(nxseg,))
+            if cur[2] == nch:
+                break
+        _, _, _, fn, xi, df, bw, _, phi, S, DF1, DF2 = cur
+        fs_c = cur[1]
+        freq = cur[7]
+        buf[...] = S
+        info = f"[work array refilled in place, analysis #{rep + 1}; nxseg={nxseg} fn/fs={fn/fs_c:.3f} xi={xi:.4f} nch={nch}]"
+        for method in ("EFDD", "FSDD"):
+            Fn, Xi, Phi, _ = fdd.EFDD_mpe(buf, freq, 1 / fs_c, [fn], "per", method=method, DF1=DF1, DF2=DF2)
+            judge(ctx, f"truth@EFDD_mpe({method})", f"{method}_reused_array", Fn, Xi, Phi, fn, xi, phi, info)
+    ctx.state("same array object analysed twice with different content")
+    ctx.nontrivial(("reused", nxseg, nch, round(fn / fs_c, 3)))
+
+
 def run_classes(ctx, rng):
     import pyoma2.functions.fdd as F_
     from pyoma2.algorithms import EFDD, FSDD
@@ -128,4 +153,4 @@ def run_classes(ctx, rng):
 
 def run_case(ctx, case):
     rng = gen.rng_of(case)
-    (run_function if case["cls"] == "function" else run_classes)(ctx, rng)
+    {"function": run_function, "classes": run_classes, "reused_buffer": run_reused_buffer}[case["cls"]](ctx, rng)
